@@ -7,7 +7,7 @@
    next-state relation step by step (C02 C03 C12 C13; the download flag of C15). *)
 EXTENDS Ranger, Policy, Json, IOUtils
 
-CONSTANT Prop      \* "C02" | "C03" | "C12" | "C13"
+CONSTANT Prop      \* "C02" | "C03" | "C08" | "C12" | "C13"
 
 Rec == ndJsonDeserialize(IOEnv.TRACE)
 
@@ -119,12 +119,14 @@ Check(r, pre, post) ==
          (CASE Prop = "C02" -> PutC02(r, pre, post)
             [] Prop = "C03" -> PutC03(r, pre, post)
             [] Prop = "C12" -> PutC12(r)
-            [] Prop = "C13" -> HeadsOk(r, post))
+            [] Prop = "C13" -> HeadsOk(r, post)
+            [] Prop = "C08" -> TRUE)
     [] r.ev = "Msg" ->
          (CASE Prop = "C02" -> MsgStoreOk(r, pre, post)
             [] Prop = "C03" -> MsgC03(r, pre, post)
             [] Prop = "C12" -> MsgC12(r, pre, post)
-            [] Prop = "C13" -> HeadsOk(r, post))
+            [] Prop = "C13" -> HeadsOk(r, post)
+            [] Prop = "C08" -> MsgStoreOk(r, pre, post))
     [] r.ev = "RemoveDoc" -> r.res = "ok" /\ post = {} /\ (Prop = "C13" => r.heads = <<>>)
     [] r.ev = "Reopen" -> post = pre /\ (Prop = "C13" => HeadsOk(r, post))
     [] r.ev = "News" ->
@@ -165,7 +167,7 @@ Step ==
                         [] OTHER -> subs)
           /\ policy' = IF r.ev = "Policy" THEN [kind |-> r.kind, filters |-> r.filters]
                        ELSE IF r.ev = "RemoveDoc" THEN DefaultPolicy ELSE policy
-          /\ fpmap' = IF r.ev = "Msg" /\ Prop = "C02"
+          /\ fpmap' = IF r.ev = "Msg" /\ Prop \in {"C02", "C08"}
                       THEN fpmap \cup NewFpPairs(MsgR(r, store).out, r.reply) ELSE fpmap
   /\ l' = l + 1
 
